@@ -76,6 +76,63 @@ def correspondences(tier, rng):
             elif got != bytes(d): P.append("table %r content changed" % bytes(t))
         return "; ".join(P) if P else None
     out.append(Corr("write_sfnt", cases, impl_write, oracle=oracle_write))
+    # WOFF2 transformed glyf: the point triplets of a simple glyph (all delta classes and their boundaries)
+    import array
+    from fontTools.ttLib.woff2 import WOFF2GlyfTable
+    from fontTools.ttLib.tables._g_l_y_f import Glyph, GlyphCoordinates
+    BOUND = [0, 1, 2, 15, 16, 17, 63, 64, 65, 66, 255, 256, 257, 767, 768, 769, 770, 1023, 1024, 1279, 1280, 1281, 4095, 4096, 4097, 65535]
+    def gen_pts():
+        k = rng.randint(0, 8); pts = []; x = y = 0
+        for _ in range(k):
+            fam = rng.below(6)
+            if fam == 0: dx, dy = 0, rng.choice(BOUND) * rng.choice([1, -1])
+            elif fam == 1: dx, dy = rng.choice(BOUND) * rng.choice([1, -1]), 0
+            elif fam == 2: dx, dy = rng.choice(BOUND) * rng.choice([1, -1]), rng.choice(BOUND) * rng.choice([1, -1])
+            elif fam == 3: dx, dy = rng.randint(-70, 70), rng.randint(-70, 70)
+            elif fam == 4: dx, dy = rng.randint(-5000, 5000), rng.randint(-5000, 5000)
+            else: dx, dy = rng.choice([65535, 65536, -65536, 70000, rng.randint(-65535, 65535)]), rng.randint(-800, 800)
+            x += dx; y += dy; pts.append((x, y, rng.chance(60)))
+        return pts
+    tcases = [gen_pts() for _ in range(N(tier, 800, 12000))]
+    def impl_enc(pts):
+        def go():
+            t = WOFF2GlyfTable(); t.flagStream = b""; t.glyphStream = b""
+            g = Glyph(); g.coordinates = GlyphCoordinates([(x, y) for x, y, _ in pts]); g.flags = array.array("B", [1 if on else 0 for _, _, on in pts])
+            t._encodeTriplets(g)
+            return (list(t.flagStream), list(t.glyphStream))
+        return res(go)
+    def oracle_enc(pts):
+        """the PROPERTY on the implementation: the transformed point data reconstruct the points"""
+        r = impl_enc(pts)
+        if isinstance(r, Err) or not pts: return None
+        t = WOFF2GlyfTable(); t.flagStream = bytes(r.v[0]) + b"\x07"; t.glyphStream = bytes(r.v[1]) + b"\x09\x08"
+        g = Glyph(); g.endPtsOfContours = [len(pts) - 1]
+        t._decodeTriplets(g)
+        got = [(x, y, bool(f)) for (x, y), f in zip(g.coordinates, g.flags)]
+        if got != [(x, y, on) for x, y, on in pts]: return "triplets decode to %r, encoded %r" % (got, pts)
+        if (t.flagStream, t.glyphStream) != (b"\x07", b"\x09\x08"): return "decoding consumed the wrong number of bytes"
+        return None
+    out.append(Corr("encodeTriplets", tcases, impl_enc, oracle=oracle_enc))
+    dcases = []
+    for pts in tcases[: len(tcases) // 2]:
+        r = impl_enc(pts)
+        if isinstance(r, Err): continue
+        fs, ts = list(r.v[0]), list(r.v[1]); n_ = len(pts); r_ = rng.below(8)
+        if r_ == 0 and ts: ts = ts[:rng.randint(0, len(ts) - 1)]                       # glyph stream cut short
+        elif r_ == 1 and fs: fs = fs[:rng.randint(0, len(fs) - 1)]                     # flag stream cut short
+        elif r_ == 2 and fs: fs[rng.below(len(fs))] = rng.below(256)                   # another class: the byte count changes
+        elif r_ == 3: fs = [rng.below(256) for _ in range(n_)]; ts = [rng.below(256) for _ in range(rng.randint(0, 4 * n_ + 2))]
+        elif r_ == 4: fs += [rng.below(256)]; ts += [rng.below(256) for _ in range(3)]  # following data stay
+        dcases.append((n_, fs, ts))
+    def impl_dec(x):
+        n_, fs, ts = x
+        def go():
+            t = WOFF2GlyfTable(); t.flagStream = bytes(fs); t.glyphStream = bytes(ts)
+            g = Glyph(); g.endPtsOfContours = [n_ - 1]
+            t._decodeTriplets(g)
+            return (([(x_, y_, bool(f)) for (x_, y_), f in zip(g.coordinates, g.flags)], list(t.flagStream)), list(t.glyphStream))
+        return res(go)
+    out.append(Corr("decodeTriplets", [c for c in dcases if c[0] >= 1], impl_dec))
     return out
 
 # ------------------------------------------------------------------ implementation-side sweeps
